@@ -32,10 +32,23 @@ func lifeHostMain(args []string) {
 	}
 	obs := lifeObs{}
 	emus := map[int64]*redisemu.RedisEmu{}
+	quits := map[int64]chan struct{}{}
 	conns := map[int64]*Conn{}
 	acts := map[int64]string{}
 	owner := map[int64]int64{}
-	running := int64(0)
+	onPort := map[int64]int64{} // port slot -> running instance
+	portOf := func(st J) int {
+		if p, ok := st["p"]; ok {
+			return port + int(jInt(p)) - 1
+		}
+		return port
+	}
+	slotOf := func(st J) int64 {
+		if p, ok := st["p"]; ok {
+			return jInt(p)
+		}
+		return 1
+	}
 	out := func() {
 		b, _ := json.Marshal(obs)
 		fmt.Println(string(b))
@@ -45,7 +58,8 @@ func lifeHostMain(args []string) {
 		switch jStr(st["a"]) {
 		case "start":
 			i := jInt(st["i"])
-			emu, err := redisemu.NewEmulator(lane.NewNullLane(nil), port, "127.0.0.1", "", nil)
+			quits[i] = make(chan struct{})
+			emu, err := redisemu.NewEmulator(lane.NewNullLane(nil), portOf(st), "127.0.0.1", "", quits[i])
 			if err != nil {
 				o["error"] = err.Error()
 				break
@@ -56,9 +70,9 @@ func lifeHostMain(args []string) {
 			out() // if Start() cannot listen it calls os.Exit(1): the parent then sees this line last
 			emu.Start()
 			obs.Steps = obs.Steps[:len(obs.Steps)-1]
-			running = i
+			onPort[slotOf(st)] = i
 			// the successor must be empty
-			if c, err := Dial(port, time.Second); err == nil {
+			if c, err := Dial(portOf(st), time.Second); err == nil {
 				if r, err := c.DoS("DBSIZE"); err == nil && r.Kind == ':' {
 					o["dbsize"] = r.Int
 				} else {
@@ -71,13 +85,13 @@ func lifeHostMain(args []string) {
 		case "connect":
 			c := jInt(st["c"])
 			o["c"] = c
-			cn, err := Dial(port, time.Second)
+			cn, err := Dial(portOf(st), time.Second)
 			if err != nil {
 				o["dial_err"] = err.Error()
 				break
 			}
 			conns[c] = cn
-			owner[c] = running
+			owner[c] = onPort[slotOf(st)]
 			acts[c] = jStr(st["act"])
 			if r, err := cn.DoS("SET", fmt.Sprintf("key%d", c), fmt.Sprintf("v%d", c)); err != nil || r.Kind != '+' {
 				o["set_err"] = fmt.Sprint(r, err)
@@ -92,12 +106,17 @@ func lifeHostMain(args []string) {
 				cn.Send([][]byte{[]byte("BLPOP"), []byte("nolist"), []byte("0")})
 			}
 			time.Sleep(5 * time.Millisecond)
-		case "close":
+		case "close", "quit":
 			i := jInt(st["i"])
 			o["i"] = i
 			done := make(chan struct{})
 			t0 := time.Now()
-			go func() { emus[i].Close(); close(done) }()
+			if jStr(st["a"]) == "quit" {
+				// termination through the quit channel given to NewEmulator
+				go func() { close(quits[i]); emus[i].WaitForTermination(); close(done) }()
+			} else {
+				go func() { emus[i].Close(); close(done) }()
+			}
 			select {
 			case <-done:
 				o["returned"] = true
@@ -105,9 +124,46 @@ func lifeHostMain(args []string) {
 				o["returned"] = false
 			}
 			o["ms"] = time.Since(t0).Milliseconds()
-			if running == i {
-				running = 0
+			myPort := port
+			for slot, inst := range onPort {
+				if inst == i {
+					myPort = port + int(slot) - 1
+					delete(onPort, slot)
+				}
 			}
+			// the connections of the OTHER instances must not notice anything
+			others := []J{}
+			for c, cn := range conns {
+				if owner[c] == i {
+					continue
+				}
+				p := J{"c": c, "act": acts[c], "of": owner[c]}
+				switch acts[c] {
+				case "idle":
+					if r, err := cn.DoS("PING"); err == nil && r.Kind == '+' {
+						p["alive"] = true
+					} else {
+						p["alive"] = false
+						p["detail"] = fmt.Sprint(r, err)
+					}
+				case "multi":
+					if r, err := cn.DoS("PING"); err == nil && string(r.Str) == "QUEUED" {
+						p["alive"] = true
+					} else {
+						p["alive"] = false
+						p["detail"] = fmt.Sprint(r, err)
+					}
+				default:
+					// blocked / mid-pipeline: nothing may arrive, and the socket must stay open
+					_, err := cn.ReadT(150 * time.Millisecond)
+					p["alive"] = err != nil && isTimeout(err)
+					if err != nil && !isTimeout(err) {
+						p["detail"] = err.Error()
+					}
+				}
+				others = append(others, p)
+			}
+			o["other_conns"] = others
 			// what can the old connections still do?
 			probes := []J{}
 			for c, cn := range conns {
@@ -145,7 +201,7 @@ func lifeHostMain(args []string) {
 				probes = append(probes, p)
 			}
 			o["old_conns"] = probes
-			if c, err := net.DialTimeout("tcp", fmt.Sprintf("127.0.0.1:%d", port), 500*time.Millisecond); err == nil {
+			if c, err := net.DialTimeout("tcp", fmt.Sprintf("127.0.0.1:%d", myPort), 500*time.Millisecond); err == nil {
 				c.Close()
 				o["port_still_accepts"] = true
 			} else {
@@ -156,15 +212,15 @@ func lifeHostMain(args []string) {
 	}
 	// isolation epilogue: two instances alive in this process
 	iso := J{}
-	a, _ := redisemu.NewEmulator(lane.NewNullLane(nil), port+1, "127.0.0.1", "", nil)
-	b, _ := redisemu.NewEmulator(lane.NewNullLane(nil), port+2, "127.0.0.1", "", nil)
+	a, _ := redisemu.NewEmulator(lane.NewNullLane(nil), port+2, "127.0.0.1", "", nil)
+	b, _ := redisemu.NewEmulator(lane.NewNullLane(nil), port+3, "127.0.0.1", "", nil)
 	obs.Steps = append(obs.Steps, J{"a": "starting", "i": "iso"})
 	out()
 	a.Start()
 	b.Start()
 	obs.Steps = obs.Steps[:len(obs.Steps)-1]
-	ca, err1 := Dial(port+1, time.Second)
-	cb, err2 := Dial(port+2, time.Second)
+	ca, err1 := Dial(port+2, time.Second)
+	cb, err2 := Dial(port+3, time.Second)
 	if err1 == nil && err2 == nil {
 		ca.DoS("SET", "shared", "A")
 		if r, err := cb.DoS("GET", "shared"); err == nil {
